@@ -7,6 +7,7 @@ import lang
 from chartgen import ESCAPE_LIKE, keyword_like_words, outcome, section, wide_chars
 from common import cps, rng
 from extract_lang import FIELDS
+from common import exc_name  # noqa: E402
 
 PASCAL = {f: "".join(w.capitalize() for w in f.split("_")) for f in FIELDS}
 INT_FIELDS = ["resolution", "offset", "difficulty", "preview_start", "preview_end"]
@@ -56,7 +57,7 @@ def observe(cid, body, entry="file"):
     if entry == "file":
         kind, val = outcome(song_chart(body))
         if kind == "raise":
-            rec["raised"] = type(val).__name__
+            rec["raised"] = exc_name(val)
             return rec
         m = val.metadata
     else:
@@ -67,7 +68,7 @@ def observe(cid, body, entry="file"):
         try:
             m = Metadata.from_chart_lines(arg)
         except Exception as e:  # noqa: BLE001
-            rec["raised"] = type(e).__name__
+            rec["raised"] = exc_name(e)
             m = None
         if entry in ("list", "tuple", "deque", "dict-keys"):
             # a container can be read again: the SAME object decoded a second time (the caller did nothing to it in between)
@@ -76,7 +77,7 @@ def observe(cid, body, entry="file"):
                 m2 = Metadata.from_chart_lines(arg)
                 rec["again_same"] = m is not None and all(getattr(m2, f) == getattr(m, f) and type(getattr(m2, f)) is type(getattr(m, f)) for f in FIELDS)
             except Exception as e:  # noqa: BLE001
-                rec["again_same"] = m is None and type(e).__name__ == rec["raised"]
+                rec["again_same"] = m is None and exc_name(e) == rec["raised"]
         if m is None:
             return rec
     for f in FIELDS:
